@@ -63,15 +63,22 @@ CHECKS = {
   tech="Lean 4 proof (frame theorem for the cancel step) + virtual-time differential with cancellation grid",
   ref="§5 Batcher"),
  "C10": dict(
-  text="Lean model of assembly / FIFO semaphore / batch timeout (Batcher/Model.lean) with theorem "
-       "C11_fresh_adds_work (each work-creating call queues exactly one item, in arrival order); size, slot, FIFO "
-       "and deadline behaviour of the machine is tied to the real code by a virtual-time differential that compares "
-       "every batch's start time, identity and contents, including max_batch_size mutated while running; monitor: "
-       "1 <= size <= limit in force, running <= max_concurrent_batches, FIFO, not early / not late, sharing",
-  note=NOTE_COMMON + "Partial: the machine-level invariants (size, slots, FIFO) are proved for the assembly core "
-       "in design-probes and are being ported to the full machine; until then C10 rests on the correspondence and "
-       "the monitor. asyncio.Semaphore FIFO fairness assumed (3.12).",
-  tech="Lean 4 model + virtual-time model/implementation differential on batch events + limit/FIFO/deadline monitor",
+  text="Lean theorems about the whole batcher machine (Batcher/Model.lean), for EVERY fresh configuration, every batch "
+       "function plan and every list of timed inputs (calls with any keys, cancellations, max_batch_size mutations), "
+       "after every prefix of the inputs and after draining: C10_batch_sizes(_out/_prefix/_fixed) (every batch "
+       "announced to the batch function has 1 <= size <= the largest max_batch_size in force while it was assembled), "
+       "C10_concurrency (running batches <= max_concurrent_batches at every instant; nothing changes the limit), "
+       "C10_fifo(_final) (handed-over ++ waiting-for-a-slot ++ being-assembled ++ queued = arrival order, so the "
+       "hand-over order is a prefix of the arrival order), from the machine invariant J (Batcher/Invariant.lean: "
+       "preserved by pump, startBatch, releaseSlots, dispatch, assemble, fire, advance, arrive, applyIn). Tied to "
+       "AsyncBackgroundBatcher by a virtual-time differential that compares every batch's start time, identity and "
+       "contents, including max_batch_size mutated while running; monitor: 1 <= size <= limit in force, running <= "
+       "max_concurrent_batches, FIFO, not early / not late, sharing",
+  note=NOTE_COMMON + "Partial: the timing clauses (calls < batch_timeout apart share a batch until it is full; "
+       "hand-over no later than batch_timeout after the last arrival) are decided by the differential on batch start "
+       "times and the monitor, not by a theorem. asyncio.Semaphore FIFO fairness assumed (3.12).",
+  tech="Lean 4 proof (inductive invariant of the timed batcher machine over all input programs) + virtual-time "
+       "model/implementation differential on batch events + limit/FIFO/deadline monitor",
   ref="§5 Batcher"),
  "C11": dict(
   text="Lean theorems C11_shared_adds_no_work (a call whose key is remembered - pending or inside the retention "
@@ -128,7 +135,8 @@ CHECKS = {
        "only when no call is in flight); debounce timing (no call while arrivals are < timeout apart, one call at "
        "last arrival + timeout containing the burst) is tied to the code by the virtual-time differential comparing "
        "every call's instant and contents over arrival grids straddling the timeout, with a quiet-period / burst "
-       "monitor (ties excluded)",
+       "monitor (no call inside a quiet period, call at last arrival + timeout, burst not split, burst not offered "
+       "again after its call succeeded; ties excluded)",
   note=NOTE_COMMON + "Partial: the quiet-period and burst clauses are validated by differential + monitor, not yet "
        "theorems.",
   tech="Lean 4 proof (step theorem) + virtual-time differential on call instants + quiet-period monitor",
@@ -142,7 +150,9 @@ CHECKS = {
        "C12_time_bounds (non-blocking: 0; timed: timeout + one poll interval, any state, with faults). Tied to "
        "aiuti.filelock by a bounded-exhaustive sequential differential on a real lock file (all sequences to length "
        "3/4 over 24 operations x 3 reentrancy configs, each with a full release and re-acquire probes by everybody; "
-       "random to length 12) and every single / double OSError injection into open/lock/unlock/close",
+       "whole with-blocks - acquire_ctx non-blocking / timed / blocking and the with-statement - as extra operations, "
+       "expanded to the acquire and, only if the block was entered, a release; random to length 12) and every single "
+       "/ double OSError injection into open/lock/unlock/close",
   note=NOTE_COMMON + "The refinement theorem is for fault-free histories; behaviour under injected OSErrors is "
        "covered by the model-vs-code differential plus a no-residue monitor, not by a theorem. threading.Lock/RLock "
        "are re-implemented by the harness for sequential runs; the kernel's flock is the real one.",
@@ -156,7 +166,8 @@ CHECKS = {
        "(inv_init, inv_step); C02_success_is_hold: a successful acquirer owns the object's thread lock and its "
        "descriptor is the one holding the OS lock, and nobody else holds. Tie: 2..4 real threads over 1..2 objects "
        "run under a deterministic baton scheduler (schedule point at every thread-lock, open, flock, close, sleep, "
-       "critical-section step; random and PCT schedules); each execution's label trace must be accepted by the "
+       "critical-section step; acquire / with / acquire_ctx in blocking, non-blocking and timed forms, holders staying "
+       "inside for 0..400 virtual ticks so that timeouts expire; random and PCT schedules); each execution's label trace must be accepted by the "
        "model and an occupancy monitor watches the critical section; 4 (quick) / 16 free-running processes with an "
        "O_EXCL marker validate the kernel assumption",
   note=NOTE_COMMON + "Partial across processes: exclusion between processes is the kernel's flock (assumed; "
@@ -222,14 +233,17 @@ CHECKS = {
        "refinement check under a deterministic scheduler + hang detector", ref="§5 C17"),
  "C01": dict(
   text="Lean theorems about the cache LTS (Cache/Model.lean: any number of callers, keys, loops and threads; every "
-       "interleaving at shared-access granularity; loop life-cycle fresh/running/stopped/shutting/closed with "
+       "interleaving at shared-access granularity; loop life-cycle fresh/running/stopped/resumed/shutting/closed with "
        "orphaned invocations, take-over of a dead marker, own-marker-only deletion; evictions; cancellations): "
        "C01_single_flight (no two live invocations per key, EVERY accepted label sequence), C01_one_owner, "
        "C01_takeover_only_from_dead, C01_cached_is_returned, from a 23-clause inductive invariant (inv_init, "
        "inv_step). Tie: 2..4 real loop threads under the baton scheduler with hook-free instrumentation of the cache "
        "mapping, the in-flight table (closure cell), the lock class, loop-state reads and Event.set; the observation "
-       "trace of every execution is replayed on the LTS (program counter and observed values must agree); monitor: "
-       "overlap of live invocations, recomputation after a retained success",
+       "trace of every execution is replayed on the LTS (program counter and observed values must agree); random and "
+       "PCT schedules plus a systematic context-bounded exploration (non-preemptive baseline and every single "
+       "preemption; pairs within a window in the thorough tier) of small race scenarios; monitor: overlap of live "
+       "invocations, recomputation after a retained success (loops are not resumed in this check, as the property "
+       "says)",
   note=NOTE_COMMON + "Holds only after fix 90a667a (F2). The clause 'every later caller receives that one result' is "
        "covered by C06_outcome + the monitor; uniqueness of the result under a retaining mapping is not a separate "
        "theorem.",
@@ -239,9 +253,11 @@ CHECKS = {
   text="Lean theorems about the same LTS: C05_no_lost_wakeup (a caller waiting on an unset event: the event's "
        "creator is still before its event.set() with that very event), C05_lock_holder_enabled (the lock is never "
        "held across an await: its holder can always step), C05_waiter_wakeable, C05_publisher_enabled, "
-       "C05_waits_on_owners_event. Tie as C01, plus virtual-time monitors: every caller finishes (deadlock / "
-       "step-budget detector), a waiter whose loops stay alive finishes at the instant the computation ends (not 60 s "
-       "later), waiters of a loop that died recover within the 60 s safety window",
+       "C05_waits_on_owners_event. Tie as C01, with loops that are also paused and run again (run_until_complete a "
+       "second time; label loopResume) and the scenario families takeover-resume / death-race, plus virtual-time "
+       "monitors: every caller finishes (deadlock / step-budget detector), a caller that did not compute is released "
+       "no later than the end of the computation it last waited for (not by the 60 s timer) unless the computing "
+       "loop stopped in between, in which case the 60 s safety window applies",
   note=NOTE_COMMON + "Partial: termination under fair scheduling is argued from these lemmas on paper; promptness "
        "and the 60 s recovery bound are measured in virtual time, not proved (the model over-approximates the "
        "waiting path).",
@@ -252,7 +268,9 @@ CHECKS = {
        "value produced by a successful invocation for its key, or raised an exception of an invocation it performed "
        "itself, or was cancelled with its own task - nothing else exists), C06_failure_not_cached, "
        "C06_cancel_isolated (cancelling a waiter touches only that caller), C06_marker_removal_never_fails. Tie as "
-       "C01, with failing invocations, client cancellations and shutdown of loops hosting computations or proxy "
+       "C01 (including the systematic single-preemption exploration of the death-race family: the computing loop "
+       "returns, shuts down and closes at the instant another loop's caller checks it), with failing invocations, "
+       "client cancellations, paused-and-resumed loops and shutdown of loops hosting computations or proxy "
        "waits; monitor: type and origin of every outcome, no bookkeeping exception, no foreign cancellation",
   note=NOTE_COMMON + "Holds only after fixes 90a667a (F2) and 9d605d2 (F4). The model abstracts the waiting path, so "
        "the foreign-cancellation clause (F4) is guarded by the monitor, not by a theorem.",
